@@ -29,6 +29,23 @@ Theorem divmod_def_characterise : forall n d q r, d <> 0 ->
 Proof. intros n d q r Hd. rewrite divmod_def_iff. exact (divmod_axioms_characterise n d q r Hd). Qed.
 Print Assumptions divmod_def_characterise.
 
+(* The rewriter with its cache (several div/mod applications in one formula share auxiliary variables exactly
+   when dividend AND divisor coincide): whenever the introduced definitions hold, every application has been
+   replaced by a variable whose value is the SMT-LIB value of that application ... *)
+Theorem divmod_rewrite_sharing_sound : forall (rho : nat -> Z) (sigma : nat -> Z * Z) (apps : list dm_app) defs vs,
+  Forall (fun a => snd (app_key a) <> 0) apps -> rw_apps [] apps = (defs, vs) -> defs_hold rho sigma defs ->
+  Forall2 (fun a v => aux_val sigma v = app_val rho a) apps vs.
+Proof. exact rw_apps_sound. Qed.
+Print Assumptions divmod_rewrite_sharing_sound.
+
+(* ... and the definitions can always be satisfied (Euclidean quotient and remainder per pair): the
+   elimination is a conservative extension. *)
+Theorem divmod_rewrite_conservative : forall (rho : nat -> Z) (apps : list dm_app) defs vs,
+  Forall (fun a => snd (app_key a) <> 0) apps -> rw_apps [] apps = (defs, vs) ->
+  defs_hold rho (canon_sigma rho defs) defs.
+Proof. exact rw_apps_canon. Qed.
+Print Assumptions divmod_rewrite_conservative.
+
 (* Bound tightening, LASolver::getBoundsValueForIntVar: for every integer v and rational c. *)
 Theorem tighten_strict : forall (v : Z) (c : Q),
   ((inject_Z v < c)%Q <-> v <= bp_upper (bounds_int c true)) /\
@@ -133,6 +150,12 @@ Print Assumptions dl_conv_fixed_exact.
 Example fold_nonvacuous : fold_div (-7) (-2) = Some 4 /\ fold_mod (-7) (-2) = Some 1 /\ fold_div 7 (-2) = Some (-3).
 Proof. repeat split; vm_compute; reflexivity. Qed.
 Example divmod_def_nonvacuous : divmod_def (-7) (-2) 4 1 = true /\ divmod_def (-7) (-2) 3 (-1) = false.
+Proof. split; vm_compute; reflexivity. Qed.
+Example rewrite_sharing_nonvacuous :
+  rw_apps [] [(KDiv, 0%nat, 3); (KDiv, 0%nat, -3); (KMod, 0%nat, 3); (KMod, 1%nat, 3)] =
+    ([(0%nat, 3); (0%nat, -3); (1%nat, 3)], [(0%nat, KDiv); (1%nat, KDiv); (0%nat, KMod); (2%nat, KMod)]) /\
+  rewritten_holds (fun _ => 7) (canon_sigma (fun _ => 7) [(0%nat, 3); (0%nat, -3); (1%nat, 3)])
+    [(KDiv, 0%nat, 3); (KDiv, 0%nat, -3); (KMod, 0%nat, 3); (KMod, 1%nat, 3)] = true.
 Proof. split; vm_compute; reflexivity. Qed.
 Example tighten_nonvacuous :
   bounds_int (7 # 2) true = {| bp_upper := 3; bp_lower := 4 |} /\
